@@ -129,6 +129,7 @@ class Ctx:
         self.loop_specs = {}
         self.cache_known = {}
         self.axioms = []
+        self.named_mark = len(S.NAMED_SUMS)   # finite sums named (as divisors) on this path come after this
 
     # ---- fresh symbols --------------------------------------------------------------
     def _name(self, base):
